@@ -174,6 +174,13 @@ func Start(ds DataSource, queuedRequests chan func(), Npresamp int, Nsamples int
 // This will be a long-running goroutine, as long as a source is active.
 func CoreLoop(ds DataSource, queuedRequests chan func()) {
 	defer ds.RunDoneDeactivate()
+	// However the loop ends (Stop, or the source ending by itself on an error), stop writing first:
+	// Stop only does that for a source that is still active, and no output file may be left open.
+	defer func() {
+		if ds.WritingIsActive() {
+			ds.WriteControl(&WriteControlConfig{Request: "STOP"})
+		}
+	}()
 	nextBlock := ds.getNextBlock()
 
 	for {
